@@ -8,10 +8,10 @@ import units
 VERIF = units.VERIF
 
 NA = {
-    "C02": "Quantifies over crash points between file-system operations and over directory images; the deciding state is kernel/page-cache state, not a function result. Kani has no file or process model; Verus would need the whole I/O stack axiomatised, i.e. proving a model, which is a different technique family.",
+    "C02": "Quantifies over crash points between file-system operations and over directory images; the deciding state is kernel/page-cache state, not a function result. Kani has no file or process model; Verus would need the whole I/O stack axiomatised, i.e. proving a model, which is a different technique family. The per-function obligations of the recovery mechanism that contracts can carry are decided under C13 (record validation, checksum gate, sequence gate, replay order, torn first record), C12 (sync before apply, flush before reclaim, oldest-first reclaim) and C03 (no hole in the record ids, start-up order, shutdown drain); their composition over crash points is not mechanised.",
     "C05": "Concurrency: Kani has no threads; Verus would require rewriting the locking in its permission types (a different program).",
     "C11": "Concurrency plus scheduling of deferred commits across reader locks (Weak<RwLock<Box<dyn TreeReader>>>, is_locked races); same reason as C05.",
-    "C15": "Liveness (every commit returns, shutdown terminates) under all wake-up interleavings; the installed deductive back ends prove partial correctness of sequential code only. The termination fact within reach (lookup chains terminate) is proved under C09.",
+    "C15": "Liveness (every commit returns, shutdown terminates) under all wake-up interleavings; the installed deductive back ends prove partial correctness of sequential code only. The termination facts within reach are proved where they belong: lookup chains terminate (C09), every loop of the shutdown drain terminates given the step contracts of the stage functions (C03, unit shutdown_drain), the mask walk of log records terminates (C13).",
 }
 
 
